@@ -197,6 +197,10 @@ let () =
              (* the hypothesis of C08_order_then_backend_erase on a REAL resolved program *)
              let r = read_resolved line in
              print_endline ("ANNDEPS " ^ (if ann_deps_ok gen_assign_target_deps r.r_stmts then "t" else "f"))
+         | "anntypes" ->
+             (* the syntactic condition that implies it (C08_ann_types_only_deps_ok), needed on the annotated side only *)
+             let r = read_resolved line in
+             print_endline ("ANNTYPES " ^ (if ann_types_only gen_assign_target_deps r.r_stmts then "t" else "f"))
          | "modules" ->
              (match String.split_on_char '\t' line with
               | main :: std :: files ->
